@@ -374,11 +374,7 @@ def run_sched(case, st):
             root = tuple(os.path.join(root, x) for x in ("sdo", "network.py", "node"))
     mini = bool(case.get("mini"))
     if "schedule" in case:
-        simenv.new_world()
-        s = vsched.Scheduler(case["schedule"], horizon=200000, line_root=root)
-        result = sched_harness(case["clients"], s, mini)
-        s.run()
-        on_exec(s, result())
+        on_exec(*vsched.replay(lambda s: sched_harness(case["clients"], s, mini), case, line_root=root, horizon=200000))
         return
     stats = vsched.explore_schedules(lambda s: sched_harness(case["clients"], s, mini), case["P"], on_exec=on_exec, horizon=200000,
                                      first_dev_range=tuple(case["range"]), deviation_cost="deviation", line_root=root)
@@ -525,10 +521,7 @@ def run_inline_threads(case, st):
             st.outcome("inline threads ok")
 
     if "schedule" in case:
-        s = vsched.Scheduler(case["schedule"], horizon=200000, line_root=root)
-        result = inline_harness(s)
-        s.run()
-        on_exec(s, result())
+        on_exec(*vsched.replay(inline_harness, case, line_root=root, horizon=200000))
         return
     stats = vsched.explore_schedules(inline_harness, case["P"], on_exec=on_exec, horizon=200000,
                                      first_dev_range=tuple(case["range"]), line_root=root)
